@@ -7,7 +7,8 @@ P=$(readlink -f "$1"); ID=$2; shift 2
 WT=$(mktemp -d /tmp/seedtest_XXXXXX); rmdir "$WT"
 git -C /repo worktree add -q "$WT" HEAD || exit 3
 if ! git -C "$WT" apply "$P"; then echo "patch does not apply"; git -C /repo worktree remove --force "$WT"; exit 3; fi
-cd "$(dirname "$0")/.." && VERIF_REPO="$WT" ./check "$ID" --no-evidence "$@"
+cd "$(dirname "$0")/.." && TAG=$(basename "$WT"); VERIF_BUILD_TAG="$TAG" VERIF_REPO="$WT" ./check "$ID" --no-evidence "$@"
 rc=$?
+rm -rf "build/alt_$TAG"
 git -C /repo worktree remove --force "$WT"
 exit $rc
